@@ -554,3 +554,57 @@ pub fn graph_case(cfg: GraphCfg) -> impl Strategy<Value = GraphCase> {
     let max = 400 + 40 * cfg.max_nodes * cfg.max_solutions.min(3);
     proptest::collection::vec(any::<u32>(), 60..max).prop_map(move |c| build_case(c, &cfg))
 }
+
+/// Wide levels: k sibling nodes (roots, or children of one root) of which several fail / are unsatisfied.
+/// Targets order dependence between the parallel node tasks of one level.
+pub fn build_wide_case(choices: Vec<u32>) -> GraphCase {
+    let mut ch = Chooser::new(choices);
+    let k = 3 + ch.pick(8);
+    let with_root = ch.chance(1, 2);
+    let mut programs = Vec::new();
+    let mut nodes = Vec::new();
+    let mut edges = Vec::new();
+    let first_sibling = if with_root { 1 } else { 0 };
+    if with_root {
+        let mut p = trace_prologue(0);
+        p.extend([PUSH(7), PUSH(8)]);
+        nodes.push(NodeSpec { edge_start: 0, prog: 0 });
+        programs.push(p);
+        for i in 0..k {
+            edges.push((first_sibling + i) as u16);
+        }
+    }
+    for i in 0..k {
+        let ix = (first_sibling + i) as u16;
+        let mut p = trace_prologue(ix);
+        match ch.weighted(&[3, 3, 2, 2, 1]) {
+            0 => p.extend([PUSH(0), RES, DROP, PUSH(1)]),
+            1 => p.extend([PUSH(1), PNCIF]),
+            2 => p.extend([PUSH(0), RES, DROP, POP]),
+            3 => p.extend([PUSH(0), RES, DROP, PUSH(0)]),
+            _ => {
+                p.extend(fold_stack(1000 + i as i64));
+                p.extend([PUSH(7), BAND, PUSH(0), GT]);
+            }
+        }
+        nodes.push(NodeSpec { edge_start: LEAF, prog: programs.len() });
+        programs.push(p);
+    }
+    let nsol = 1 + ch.pick(3);
+    let solutions = (0..nsol)
+        .map(|i| SolSpec {
+            pred: 0,
+            contract: C_A,
+            data: vec![vec![sol_tag(i)]],
+            mutations: vec![],
+        })
+        .collect();
+    GraphCase {
+        programs,
+        predicates: vec![PredSpec { nodes, edges }],
+        solutions,
+        pre_state: MapSpec::default(),
+        collect_all: ch.chance(1, 3),
+        mode: [0u8, 1, 2][ch.pick(3)],
+    }
+}
